@@ -4,9 +4,8 @@
             terminals are tried, the longest match wins, a literal beats a regex of the same length;
             whitespace r"\s*" and `//` comments are skipped (an empty skip = InvalidToken).
             Written per first character; the terminals with an embedded `\s*` (r"==\s*0", r"0\s*==",
-            r":\s*cns", ...) look ahead over blanks.  ASCII only: `\s` is modelled as the six ASCII
-            blanks (the regex crate's `\s` also contains some non-ASCII code points), bytes >= 128
-            are accepted inside comments only.
+            r":\s*cns", ...) look ahead over blanks.  Texts are UTF-8 byte strings; `\s` is the regex
+            crate's Unicode class; other bytes >= 128 are accepted inside comments only.
    [parse]  the grammar as recursive descent over the token list (the LALR(1) automaton itself is
             not modelled; agreement of accepted language and trees is checked by correspondence):
               Term  ::= print_i64 ( Term ) ; Term | println_i64 ( Term ) ; Term | Term3
@@ -40,7 +39,26 @@ Fixpoint take_while (p : ascii -> bool) (s : string) : string :=
   | String c r => if p c then String c (take_while p r) else EmptyString
   | EmptyString => EmptyString
   end.
-Definition skip_ws := skip_while is_blank.
+(* r"\s*": the regex crate's Unicode class \s = [\t-\r ] and U+0085 U+00A0 U+1680 U+2000-U+200A U+2028
+   U+2029 U+202F U+205F U+3000 (see the generated __intern_token::new_builder), on the UTF-8 bytes.
+   (/repo/examples contains U+00A0 between tokens.) *)
+Definition in_range (lo hi : nat) (c : ascii) : bool := let n := nat_of_ascii c in (lo <=? n)%nat && (n <=? hi)%nat.
+Fixpoint skip_ws (s : string) : string :=
+  match s with
+  | String c r =>
+      if is_blank c then skip_ws r
+      else match s with
+           | String "194" (String c2 r2) =>
+               if in_range 133 133 c2 || in_range 160 160 c2 then skip_ws r2 else s
+           | String "225" (String "154" (String "128" r3)) => skip_ws r3
+           | String "226" (String "128" (String c3 r3)) =>
+               if in_range 128 138 c3 || in_range 168 169 c3 || in_range 175 175 c3 then skip_ws r3 else s
+           | String "226" (String "129" (String "159" r3)) => skip_ws r3
+           | String "227" (String "128" (String "128" r3)) => skip_ws r3
+           | _ => s
+           end
+  | EmptyString => s
+  end.
 
 Inductive lexstep := LTok (t : token) (rest : string) | LSkip (rest : string) | LErr.
 
@@ -139,18 +157,6 @@ Fixpoint lex (n : nat) (s : string) : option (list token) :=
       end
   end.
 Definition lex_string (s : string) : option (list token) := lex (S (String.length s)) s.
-
-(* a byte >= 128 outside a comment: outside the modelled domain *)
-Fixpoint non_ascii_code (n : nat) (s : string) : bool :=
-  match n with
-  | O => false
-  | S n =>
-      match s with
-      | EmptyString => false
-      | String "/" (String "/" r) => non_ascii_code n (comment_rest r)
-      | String c r => (128 <=? nat_of_ascii c)%nat || non_ascii_code n r
-      end
-  end.
 
 (* ================= parser ================= *)
 Definition pr (X : Type) := option (X * list token).
